@@ -2,11 +2,12 @@
 (* C09 - the case structure shared by stage A (laws of IeLayout on every type of the table) and
    stage B (cases replayed on the real accessors): for a type t of the table and one of its
    fields f, the prior contents of the element and the values written.
-     priors: all 0, all 1, 0x55.., 0xAA.., a seeded pattern, and a walking 1 / walking 0 through
-             every bit of the rows in WalkRows, of Iei and of Len
-     values: 0, 1, 2^n-1, 2^n (truncation), 0x55.., 0xAA.., the largest argument, a seeded value;
-             octet strings: constant and ramp patterns; for open-ended fields also shorter and
-             longer than the room. *)
+     base priors: all 0, all 1, 0x55.., 0xAA.., two seeded patterns
+          x values: 0, 1, 2^n-1, 2^n, 2^n+1 (truncation), 0x55.., 0xAA.., the largest argument, a seeded
+                    value; octet strings: constant and ramp patterns; for open-ended fields also
+                    shorter and longer than the room
+     walking priors: a walking 1 / walking 0 through every bit of the rows in WalkRows, of Iei, of Len
+          x values: 0, the largest argument (all ones), a seeded value. *)
 EXTENDS IeLayout, FiniteSets
 CONSTANTS Wide,      \* TRUE: walk through every octet of the element; FALSE: touched rows and their neighbours
           Seed       \* 0..999, selects the seeded patterns
@@ -34,14 +35,12 @@ WalkRows(t, f, L) == IF Wide \/ ~InContents(f) THEN (IF Wide THEN 0..(L - 1) ELS
                      ELSE Rows(f, L)
 WalkIei(t, f) == t.hasIei /\ (Wide \/ f.kind = "iei")
 WalkLen(t, f) == t.lenBits > 0 /\ (Wide \/ f.kind = "len")
-PriorsL(t, f, L) ==
-    LET base == {Elem(t, L, b) : b \in {0, 255, 85, 170}} \cup {SeededElem(t, L, 3), SeededElem(t, L, 40)}
-        ends == {Elem(t, L, 0), Elem(t, L, 255)}
-    IN base
-       \cup {[e EXCEPT !.oct[r + 1] = Flip(@, k)] : e \in ends, r \in WalkRows(t, f, L), k \in 0..7}
-       \cup (IF WalkIei(t, f) THEN {[e EXCEPT !.iei = Flip(@, k)] : e \in ends, k \in 0..7} ELSE {})
-       \cup (IF WalkLen(t, f) THEN {[e EXCEPT !.len = Flip(@, k)] : e \in ends, k \in 0..(t.lenBits - 1)} ELSE {})
-Priors(t, f) == UNION {PriorsL(t, f, L) : L \in Sizes(t)}
+Ends(t, L) == {Elem(t, L, 0), Elem(t, L, 255)}
+BasePriorsL(t, f, L) == {Elem(t, L, b) : b \in {0, 255, 85, 170}} \cup {SeededElem(t, L, 3), SeededElem(t, L, 40)}
+WalkPriorsL(t, f, L) ==
+       {[e EXCEPT !.oct[r + 1] = Flip(@, k)] : e \in Ends(t, L), r \in WalkRows(t, f, L), k \in 0..7}
+       \cup (IF WalkIei(t, f) THEN {[e EXCEPT !.iei = Flip(@, k)] : e \in Ends(t, L), k \in 0..7} ELSE {})
+       \cup (IF WalkLen(t, f) THEN {[e EXCEPT !.len = Flip(@, k)] : e \in Ends(t, L), k \in 0..(t.lenBits - 1)} ELSE {})
 
 Ramp(k, a) == IF k = 0 THEN <<>> ELSE [i \in 1..k |-> (a + 17 * i) % 256]
 Const(k, b) == IF k = 0 THEN <<>> ELSE [i \in 1..k |-> b]
@@ -57,5 +56,13 @@ ValuesL(t, f, L) ==
     [] f.kind = "array"  -> ArrayValues(f)
     [] f.kind = "slice"  -> SliceValues(L - f.r0)
     [] OTHER -> ScalarValues(f)
-Values(t, f, e) == ValuesL(t, f, Len(e.oct))
+\* the walking priors are combined with fewer values: nothing, everything, a seeded value
+WalkValuesL(t, f, L) ==
+  CASE f.kind = "string" -> {}
+    [] f.kind = "array"  -> LET k == f.r1 - f.r0 + 1 IN {Const(k, 0), Const(k, 255), Ramp(k, RndOct(k))}
+    [] f.kind = "slice"  -> LET room == L - f.r0 IN {Const(room, 0), Const(room, 255), Ramp(Max(room - 1, 0), RndOct(room))}
+    [] OTHER -> {0, f.argmax, Rnd(f.n + f.sbit) % (f.argmax + 1)}
+\* the cases of one field: groups of priors x values, per contents size
+Groups(t, f) == {[L |-> L, walk |-> FALSE, priors |-> BasePriorsL(t, f, L), values |-> ValuesL(t, f, L)] : L \in Sizes(t)}
+                \cup {[L |-> L, walk |-> TRUE, priors |-> WalkPriorsL(t, f, L), values |-> WalkValuesL(t, f, L)] : L \in Sizes(t)}
 =============================================================================
